@@ -142,13 +142,19 @@ Lemma pres_skip : forall e s, pres e (skip e s). Proof. intros; neutral. Qed.
 Lemma pres_emit : forall e h d, pres e (emit e h d).
 Proof. intros e h d. unfold emit. destruct (e_gone e); [apply pres_set_fail|]. destruct d; apply pres_set_out. Qed.
 
-Lemma pres_emit_data : forall ps e k i, pres e (emit_data e k i ps).
+Lemma pres_emit_frames : forall ps e k i, pres e (emit_frames e k i ps).
 Proof.
-  unfold emit_data. induction ps as [|p ps IH]; intros e k i; cbn [fold_left]; [apply pres_refl|].
+  unfold emit_frames. induction ps as [|p ps IH]; intros e k i; cbn [fold_left]; [apply pres_refl|].
   eapply pres_trans; [apply pres_emit|apply IH].
 Qed.
 
 Ltac pt := eapply pres_trans.
+
+Lemma pres_emit_data : forall ps e k i, pres e (emit_data e k i ps).
+Proof.
+  intros. unfold emit_data. pt; [apply pres_emit_frames|]. apply pres_upd_neutral; intros s; reflexivity.
+Qed.
+
 
 (* a frame leaves a stream and its permits return *)
 Lemma pres_release_remove : forall e k i s s' a f b,
@@ -204,7 +210,7 @@ Proof.
         let got := firstn n (fdata f) in
         let rest := skipn n (fdata f) in
         let p' := mkPread (pr_slot p) (pr_want p) (pr_len p + Z.of_nat n) (got :: pr_chunks p) in
-        let s2 := set_pread s1 (Some p') in
+        let s2 := g_chunk (set_pread s1 (Some p')) got in
         let done := pr_len p' =? pr_want p in
         match rest with
         | [] => RStep s2 [f] done
@@ -223,7 +229,7 @@ Proof.
     - inversion HH; subst. right; left. exists f. split; [reflexivity|exact Hh].
     - inversion HH; subst. right; right. exists f, (sheld s1), (r0 :: rs). split; [reflexivity|]. split; [exact Hh|].
       split.
-      + unfold sheld. cbn [set_cache set_pread s_cache s_inq]. unfold sheld in Hh. rewrite Hc1. reflexivity.
+      + unfold sheld. cbn [g_chunk set_g set_cache set_pread s_cache s_inq]. unfold sheld in Hh. rewrite Hc1. reflexivity.
       + rewrite <- Esk, skipn_length. lia. }
   destruct (s_cache s) as [fc|] eqn:Eca.
   - apply (Hgen fc (set_cache s None)); [unfold sheld; cbn [set_cache s_cache s_inq]; rewrite Eca; reflexivity|reflexivity|exact H].
@@ -249,7 +255,7 @@ Proof.
         let got := firstn n (fdata f) in
         let rest := skipn n (fdata f) in
         let p' := mkPread (pr_slot p) (pr_want p) (pr_len p + Z.of_nat n) (got :: pr_chunks p) in
-        let s2 := set_pread s1 (Some p') in
+        let s2 := g_chunk (set_pread s1 (Some p')) got in
         let done := pr_len p' =? pr_want p in
         match rest with
         | [] => RStep s2 [f] done
@@ -382,7 +388,7 @@ Proof.
     - pt; [|apply pres_enqueue_idle]. apply pres_upd_neutral; intros s0; reflexivity.
     - apply pres_handover. }
   assert (Hdisc : forall f t, s_inq s = f :: t ->
-            pres e (release (upd_stream e k i (fun _ => if fkind f =? FK_OPEN then set_rph (set_inq s t) RReady else set_inq s t)) f)).
+            pres e (release (upd_stream e k i (fun _ => if fkind f =? FK_OPEN then g_open_seen (set_rph (set_inq s t) RReady) else set_inq s t)) f)).
   { intros f t Eq. apply (pres_release_remove e k i s _ (match s_cache s with Some f0 => [f0] | None => [] end) f t); [exact E| | |].
     - unfold sheld. rewrite Eq. reflexivity.
     - destruct (fkind f =? FK_OPEN); reflexivity.
@@ -396,7 +402,7 @@ Lemma pres_queue_step : forall e q e', queue_step e q = Some e' -> pres e e'.
 Proof.
   intros e q e' H. unfold queue_step in H. destruct (q_idle q) as [|i idle]; [discriminate|]. destruct (q_pend q) as [|slot pend]; [discriminate|].
   destruct (q_kind q =? 0); inversion H; subst e'.
-  - pt; [|apply pres_handover]. pt; [apply pres_upd_queue|apply pres_emit].
+  - pt; [|apply pres_handover]. pt; [|apply pres_upd_neutral; intros s; reflexivity]. pt; [apply pres_upd_queue|apply pres_emit].
   - pt; [|apply pres_upd_neutral; intros s; reflexivity]. pt; [apply pres_upd_queue|apply pres_emit].
 Qed.
 
